@@ -30,6 +30,7 @@ type FontSpec struct {
 	Enc      map[rune][]byte // how to write each available rune
 	Alphabet []rune          // available runes (sorted, no white space except ' ')
 	CMapForm int             // Type0 / ToUnicode: 0 bfchar only, 1 bfrange where possible, 2 bfrange with array
+	CMapBlock int            // ToUnicode: at most this many entries per begin/end block (0 = 100, the limit of the format)
 	Widths   int             // standard Type1 fonts: 0 no /Widths, else every glyph this wide (a document's own metrics)
 }
 
@@ -90,6 +91,7 @@ func NewFont(kind int, resName string, r *sim.Rand) *FontSpec {
 	case FontType0Identity:
 		f.Base = "ABCDEF+NotoSans"
 		f.CMapForm = r.Intn(3)
+		f.CMapBlock = sim.Pick(r, []int{0, 0, 7, 3, 1})
 		// consecutive CIDs for consecutive runes make bfrange possible
 		cid := 3 + r.Intn(40)
 		for _, ru := range uniTargets {
@@ -102,6 +104,7 @@ func NewFont(kind int, resName string, r *sim.Rand) *FontSpec {
 		}
 	case FontSimpleToUni:
 		f.CMapForm = r.Intn(3)
+		f.CMapBlock = sim.Pick(r, []int{0, 0, 7, 3, 1})
 		code := 0x21 + r.Intn(16)
 		for _, ru := range uniTargets {
 			add(ru, byte(code))
@@ -283,17 +286,26 @@ func (f *FontSpec) toUnicodeCMap(codeBytes int, r *sim.Rand) []byte {
 		}
 		i = j + 1
 	}
-	for i := 0; i < len(chars); i += 100 {
-		end := sim.MinInt(i+100, len(chars))
+	blk := f.CMapBlock
+	if blk <= 0 || blk > 100 {
+		blk = 100
+	}
+	for i := 0; i < len(chars); i += blk {
+		end := sim.MinInt(i+blk, len(chars))
 		fmt.Fprintf(&b, "%d beginbfchar\n", end-i)
 		for _, p := range chars[i:end] {
 			fmt.Fprintf(&b, "%s %s\n", hexCode(p.code), hexUni(p.ru))
 		}
 		b.WriteString("endbfchar\n")
 	}
-	if len(runs) > 0 {
-		fmt.Fprintf(&b, "%d beginbfrange\n", len(runs))
-		for _, rn := range runs {
+	for len(runs) > 0 {
+		part := runs
+		if len(part) > blk {
+			part = runs[:blk]
+		}
+		runs = runs[len(part):]
+		fmt.Fprintf(&b, "%d beginbfrange\n", len(part))
+		for _, rn := range part {
 			if f.CMapForm == 2 {
 				fmt.Fprintf(&b, "%s %s [", hexCode(rn.lo), hexCode(rn.hi))
 				for k := 0; k <= rn.hi-rn.lo; k++ {
